@@ -541,8 +541,15 @@ func standardPlan(r *mon.Rand) (*plan, string) {
 		if r.Chance(1, 6) {
 			ver, prog = rs.OP_1, []byte{0x4e, 0x73} // P2A
 		}
-		p.rawProgram = append([]byte{ver, byte(len(prog))}, prog...)
 		p.rawP2SH = r.Chance(1, 3)
+		if r.Chance(1, 5) {
+			// taproot-shaped program (v1, 32 bytes): taproot rules apply to the native form only, the P2SH-wrapped
+			// form stays an unencumbered unknown witness program (BIP341)
+			ver, prog = rs.OP_1, r.Bytes(32)
+			p.rawP2SH = r.Bool()
+			p.mut("v1-32")
+		}
+		p.rawProgram = append([]byte{ver, byte(len(prog))}, prog...)
 		for i := r.Intn(3); i > 0; i-- {
 			p.rawWitness = append(p.rawWitness, r.Bytes(r.Intn(40)))
 		}
